@@ -276,7 +276,7 @@ def float_to_q(x, max_den=10 ** 6, rel=1e-9):
     if x != x or x in (float("inf"), float("-inf")):
         return None
     fx = Fraction(x)
-    if fx == 0:
+    if abs(x) < 1e-12:       # absolute tolerance at zero (DESIGN 4.3): a cancellation residue such as 7 - 7.000000000000001
         return [0, 1, 0]
     # bring very large values into range by a power of 1000
     scale = 0
